@@ -27,6 +27,10 @@ type c18Case struct {
 	// StopMask: which of the brokered servers (in order of creation, per side) the caller stops itself
 	// before Kill; the others are still serving when the client is killed
 	StopMask int `json:"stop_mask"`
+	// Sibling: a second client, built from a copy of the configuration that shares the same
+	// *UnixSocketConfig, is started while the first is alive; it must survive the first one's Kill,
+	// and after both Kills nothing may remain
+	Sibling bool `json:"sibling,omitempty"`
 }
 
 func c18Gen(t *rapid.T) any {
@@ -42,6 +46,7 @@ func c18Gen(t *rapid.T) any {
 	if pct(t, "stopall", 25) {
 		c.StopMask = 63
 	}
+	c.Sibling = pct(t, "sibling", 20)
 	return c
 }
 
@@ -102,6 +107,19 @@ func c18Run(ci any) (out Outcome) {
 		cc.RunnerFunc = func(_ hclog.Logger, hc *exec.Cmd, _ string) (runner.Runner, error) {
 			pc := pluginCmd(ps)
 			pc.Env = append([]string{"TMPDIR=" + plugDir}, hc.Env...)
+			return newExecRunner(pc)
+		}
+	}
+	plugDirB := filepath.Join(base, "pb")
+	os.MkdirAll(plugDirB, 0o755)
+	ccB := *cc // same *UnixSocketConfig, same TLS settings
+	if c.Launch == "cmd" {
+		ccB.Cmd = pluginCmd(ps)
+		ccB.Cmd.Env = []string{"TMPDIR=" + plugDirB}
+	} else {
+		ccB.RunnerFunc = func(_ hclog.Logger, hc *exec.Cmd, _ string) (runner.Runner, error) {
+			pc := pluginCmd(ps)
+			pc.Env = append([]string{"TMPDIR=" + plugDirB}, hc.Env...)
 			return newExecRunner(pc)
 		}
 	}
@@ -187,10 +205,48 @@ func c18Run(ci any) (out Outcome) {
 	if hostEnd != nil {
 		hostEnd.cleanupPartial(c.StopMask)
 	}
+	var clB *plugin.Client
+	var hB Handle
+	if c.Sibling {
+		out.label("sibling-client")
+		clB = plugin.NewClient(&ccB)
+		defer killBounded(clB, 20*time.Second)
+		var errB error
+		if !out.bounded("start of the sibling client", 30*time.Second, func() { hB, _, errB = dispense(clB, "p") }) {
+			return
+		}
+		if errB != nil {
+			out.violate("could not start a second client from a copy of the configuration: %v (%+v)", firstLine(errB), *c)
+			return
+		}
+	}
 	killed = true
 	if el, ok := killBounded(cl, 20*time.Second); !ok {
 		out.Slow = fmt.Sprintf("Kill did not return within %v", el)
 		return
+	}
+	if c.Sibling {
+		var errB error
+		if !out.bounded("call on the sibling client", 30*time.Second, func() {
+			if _, errB = hB.DoT(Cmd{Op: "tag"}, 20*time.Second); errB == nil {
+				// a new connection needs the sibling's socket to be still there
+				_, _, errB = dispense(clB, "p")
+			}
+		}) {
+			return
+		}
+		if errB != nil {
+			out.violate("killing one client broke its sibling (same *UnixSocketConfig, own plugin process): %v (%+v)", firstLine(errB), *c)
+			return
+		}
+		if el, ok := killBounded(clB, 20*time.Second); !ok {
+			out.Slow = fmt.Sprintf("Kill of the sibling client did not return within %v", el)
+			return
+		}
+		if !waitForD(2*time.Second, 20*time.Millisecond, func() bool { return len(listAll(plugDirB)) == 0 }) {
+			out.violate("after a graceful Kill the sibling plugin's socket directory still contains %v", listAll(plugDirB))
+			return
+		}
 	}
 	// files: nothing go-plugin created may remain on either side
 	var left []string
@@ -225,7 +281,7 @@ func c18Run(ci any) (out Outcome) {
 
 var propC18 = register(&Prop{
 	ID: "C18", Gen: c18Gen, New: func() any { return &c18Case{} }, Run: c18Run,
-	Rule: "rapid draws protocol (net/rpc, gRPC, gRPC+mux), TLS mode (none, AutoMTLS, static), launch method (exec.Cmd, custom runner) and a history of 0-6 operations over {dispense, call, brokered connection accepted by the host and dialled by the plugin, brokered connection accepted by the plugin and dialled by the host, synced stdio traffic, large response}, then closes its own brokered connections and calls Kill. " +
+	Rule: "rapid draws protocol (net/rpc, gRPC, gRPC+mux), TLS mode (none, AutoMTLS, static), launch method (exec.Cmd, custom runner) and a history of 0-6 operations over {dispense, call, brokered connection accepted by the host and dialled by the plugin, brokered connection accepted by the plugin and dialled by the host, synced stdio traffic, large response}, then closes its own brokered connections and calls Kill; in a fifth of the cases a sibling client (copy of the configuration, same *UnixSocketConfig, own process) is alive across that Kill, must keep working and is killed afterwards. " +
 		"Both sides get private directories (plugin TMPDIR, host UnixSocketConfig.TempDir; host-side brokered sockets are found by diffing the process temp dir). Oracle: after the graceful exit the plugin's directory, the host's directory and the temp-dir diff are empty (no socket file, no plugin-dir*), and within 9 s the number of goroutines inside go-plugin / yamux / grpc transport is back to the pre-case baseline on two consecutive samples. Non-trivial: >= 1 brokered connection, or multiplexing on.",
 	Assumptions: []string{"the caller closes the brokered client connections it dialled; brokered servers are stopped by the caller or left running, as drawn (stop_mask)"},
 })
